@@ -543,6 +543,33 @@ func c14(c *Ctx) {
 						okOld = true
 					}
 				}
+				// … or the key does not depend on the nickname field at all: it is computed from the incoming line (a stable
+				// alias of NickToLower(msg.Params[i]) reads the same whenever it is evaluated)
+				if !okOld {
+					if ex := astx.Expand(info, w.key); ex != nil {
+						dependsOnNick := false
+						ast.Inspect(ex, func(m ast.Node) bool {
+							switch y := m.(type) {
+							case *ast.SelectorExpr:
+								if fv := astx.FieldSel(info, y); fv != nil && fv.Pkg() != nil && strings.HasPrefix(fv.Pkg().Path(), load.ModPath) {
+									dependsOnNick = true // any field of the module's own state
+								}
+							case *ast.Ident:
+								if o := astx.Obj(info, y); o != nil {
+									if vv, isVar := o.(*types.Var); isVar && !vv.IsField() && o.Pos() >= fi.Body().Pos() {
+										if _, isAlias := astx.Alias[o]; !isAlias {
+											dependsOnNick = true // a local that is not a stable alias
+										}
+									}
+								}
+							}
+							return true
+						})
+						if _, isCall := ex.(*ast.CallExpr); isCall && !dependsOnNick {
+							okOld = true
+						}
+					}
+				}
 				r.Check(okOld, "C14.M2", name, "old index key captured before the nickname is overwritten", c.P.Pos(w.node.Pos()), "old := NickToLower(<old nick>) before the assignment",
 					"the key removed from the nickname index is computed after the nickname was overwritten: the new entry is removed")
 				// guard: keys differ
@@ -560,7 +587,7 @@ func c14(c *Ctx) {
 						for _, d := range defsOf(info, fi.Node(), astx.Obj(info, id)) {
 							if be, ok := ast.Unparen(d).(*ast.BinaryExpr); d != nil && ok && be.Op == token.EQL {
 								isLc := func(e ast.Expr) bool {
-									call, ok := ast.Unparen(e).(*ast.CallExpr)
+									call, ok := astx.Expand(info, e).(*ast.CallExpr)
 									if !ok {
 										return false
 									}
